@@ -75,6 +75,28 @@ theorem C10_sensitivity_reduction (H : RootPre → String) (l₁ l₂ : L)
     rw [← C10_root_is_hash_of_preimage H l₁, ← C10_root_is_hash_of_preimage H l₂]; exact h
   · left; exact h
 
+/-- **the real pre-image encoding is not injective** (recorded finding
+`C10/state-root-insensitive/ambiguous-key-value-concatenation`): the account state hash is computed
+from `stateDataText`, the plain concatenation of keys and values.  Different sets of changed keys
+have the same text — a key/value boundary can shift, and deleting the empty key adds nothing — so
+the sensitivity clause of the property fails for the real `H` without any SHA-256 collision.
+Both pairs are replayed on the real ledger by corpus/ledger/c10-*.ops. -/
+theorem C10_concatenation_collision :
+    stateDataText [("k", some "1v1")] = stateDataText [("k1", some "v1")] ∧
+    ([("k", some "1v1")] : List (String × Bytes)) ≠ [("k1", some "v1")] ∧
+    stateDataText [("", none)] = stateDataText [] ∧
+    ([("", none)] : List (String × Bytes)) ≠ [] := by decide
+
+/-- what does hold for the real encoding: two lists of changed keys with *different texts* give
+different account hashes unless SHA-256 collides (so sensitivity holds for every perturbation that
+changes the text, e.g. any change of a value's length-preserving content) -/
+theorem C10_state_text_sensitivity (h : String → String) (sd₁ sd₂ : List (String × Bytes))
+    (hd : stateDataText sd₁ ≠ stateDataText sd₂) :
+    h (stateDataText sd₁) ≠ h (stateDataText sd₂) ∨ ∃ x y, x ≠ y ∧ h x = h y := by
+  by_cases he : h (stateDataText sd₁) = h (stateDataText sd₂)
+  · exact Or.inr ⟨_, _, hd, he⟩
+  · exact Or.inl he
+
 /-- the previous root is part of the pre-image: the root chain commits to the whole history -/
 theorem C10_prev_root_in_preimage (H : RootPre → String) (l : L) : (flush H l).2.pre.prev = l.prevRoot := by
   simp [flush]
